@@ -33,7 +33,7 @@ func isDNE(v interface{}) bool { return v == eval.DNE }
 // assignments.
 func tryEvalCheck(r *rep.Run, kleene bool) {
 	coreMax, richMax := 7, 6
-	r.SetBudget(100e9)
+	r.SetBudget(300e9)
 	withIll := false
 	if r.Thorough() {
 		coreMax, richMax = 8, 6
@@ -55,7 +55,7 @@ func tryEvalCheck(r *rep.Run, kleene bool) {
 	}
 	progs = withAliases(progs, aliasMax)
 	progs = withMerged(progs, 5)
-	progs = append(progs, loneLeafPrograms()...)
+	progs = append(loneLeafPrograms(), progs...)
 	r.Cov["programs_incl_alias_spellings"] = len(progs)
 	hs := harnesses(r.Workers)
 	opts := optMatrix(0, 1)
